@@ -112,8 +112,14 @@ func valSx(x interface{}) *Sx {
 	case uint64:
 		return T("i", A("uint64"), SUint(v))
 	case float64:
+		if v != v { // every NaN is rendered as one canonical NaN
+			return T("f64", A("9221120237041090560"))
+		}
 		return T("f64", SUint(math.Float64bits(v)))
 	case float32:
+		if v != v {
+			return T("f32", A("2143289344"))
+		}
 		return T("f32", SUint(uint64(math.Float32bits(v))))
 	case string:
 		return T("s", SStr(v))
